@@ -31,6 +31,10 @@ def parents():
                                            ("g", "nand", ["a", "b"]), ("o1", "and", ["s1", "g"], True), ("o2", "xor", ["s2", "s3", "c"], True), ("o3", "not", ["s4"], True)])
     p2 = mkspec("par2", I("a", "b") + [("k1", "1", []), ("s1", "buf", []), ("s2", "buf", []), ("s3", "buf", []), ("s4", "buf", []), ("h", "or", ["a", "k1"]),
                                       ("o1", "nor", ["s1", "s2"], True), ("o2", "buf", ["s3"], True), ("o3", "xnor", ["s4", "h", "b"], True)])
+    # parent nets that merely START like an instance name used below (u1_, u2_, bx_, u9_): some are outputs, one is an input
+    for p in (p1, p2):
+        p["nodes"] += [["u1_zzout", "buf", True], ["u2_zzo", "not", True], ["bx_zzout", "and", True], ["bx2_zz", "or", False], ["u9_zzout", "buf", True], ["u3_zzin", "input", True]]
+        p["edges"] += [["a", "u1_zzout"], ["b", "u2_zzo"], ["a", "bx_zzout"], ["b", "bx_zzout"], ["a", "bx2_zz"], ["u3_zzin", "bx2_zz"], ["bx2_zz", "u9_zzout"]]
     return [("par1", p1), ("par2", p2)]
 
 
